@@ -168,7 +168,7 @@ inline std::string oracle_mesh(const cell& c, const OracleOpts& o = OracleOpts()
         if (std::fabs(f.area_ - area) > 1e-9 * std::max(1e-300, std::max(area, std::fabs(f.area_)))) { e << "cached-area-stale: face " << i << " cached " << f.area_ << " recomputed " << area; return e.str(); } }
     return "";
 }
-inline std::string clause_of(const std::string& err) { auto p = err.find(':'); return p == std::string::npos ? err : err.substr(0, p); }
+using vf::clause_of;
 
 // ------------------------------------------------------------------------------------------------ canonical key of a cell
 inline void put(std::string& s, const void* p, size_t n) { s.append((const char*)p, n); }
